@@ -10,7 +10,9 @@ P(size, fate, canint, ignint, release, missing) ==
   [size |-> size, fate |-> fate, canint |-> canint, ignint |-> ignint, release |-> release, mustrel |-> FALSE,
    missing |-> missing, badctl |-> FALSE]
 Q(lanes, alg, bgmax, aux, client, jobs, procs) ==
-  [lanes |-> lanes, alg |-> alg, bgmax |-> bgmax, serial |-> FALSE, auxcancel |-> aux, client |-> client, jobs |-> jobs, procs |-> procs]
+  [lanes |-> lanes, alg |-> alg, bgmax |-> bgmax, serial |-> FALSE, auxcancel |-> aux, client |-> client, jobs |-> jobs, procs |-> procs,
+   waitdone |-> FALSE]
+W(c) == [c EXCEPT !.waitdone = TRUE]        \* the client waits for all jobs before it destroys the queue
 NoProcs == [h \in {} |-> 0]
 
 (* nested add of a priority job that cancels from inside; a lane release; a failing child; 2 lanes *)
@@ -46,10 +48,18 @@ ScL == Q(2, "fifo", 0, FALSE, <<"a", "b">>,
 ScM == Q(1, "fifo", 1, TRUE, <<"a">>,
          [a |-> J("N", 1, <<S("add", "b"), S("spawn", "p1")>>), b |-> J("H", 2, <<>>)],
          [p1 |-> P(1, "exit0", TRUE, FALSE, TRUE, FALSE)])
-LiveQuickScenarios == {ScB, ScL, ScM}
+(* the client waits for completion: idle lanes must be woken by addJob itself (client add and nested add) *)
+ScN == W(Q(2, "fifo", 0, FALSE, <<"a", "b">>,
+         [a |-> J("N", 1, <<S("add", "c")>>), b |-> J("H", 2, <<>>), c |-> J("N", 3, <<S("spawn", "p1")>>)],
+         [p1 |-> P(1, "exit0", TRUE, FALSE, FALSE, FALSE)]))
+LiveQuickScenarios == {ScB, ScL, ScM, ScN}
 LiveThoroughScenarios == {ScA, ScB, ScC, ScD, ScL, ScM}
-QuickScenarios == {ScA, ScB, ScC, ScD}
-ThoroughScenarios == {ScA, ScB, ScC, ScD, ScE, ScF}
+QuickScenarios == {ScA, ScB, ScC, ScD, ScN}
+ThoroughScenarios == {ScA, ScB, ScC, ScD, ScE, ScF, ScN, W(ScA)}
+VacNotifyScenarios == {ScN}
+ScP == Q(1, "fifo", 0, FALSE, <<"a">>, [a |-> J("N", 1, <<S("add", "b")>>), b |-> J("H", 2, <<>>)], NoProcs)
+VacDrainScenarios == {ScP}
+VacBgScenarios == {ScM}
 CONSTANT Scenarios
 MCInitSet == \E c \in Scenarios : InitWith(c)
 MCSpecSet == MCInitSet /\ [][MCNext]_vars /\ WF_vars(MCNextNoCancel)
